@@ -6,18 +6,21 @@ From Coq Require Import NArith ZArith List Bool.
 From NV Require Import Base.Bytes Runtime.DynArray Runtime.DynArrayProofs Runtime.Gc Runtime.GcProofs gen.RtParams.
 Import ListNotations.
 
-(* the measured constants satisfy what the proofs need: INITIAL_CAPACITY >= 1, GROWTH_FACTOR >= 2, element sizes < 256 *)
+(* the measured constants satisfy what the proofs need: INITIAL_CAPACITY >= 1, GROWTH_FACTOR >= 2, the built-in element sizes fit the
+   elem_size field, and limit * 256^sizeof(elem_size) stays far below 2^63 *)
 Theorem C20_params_good : good_params rt_params.
 Proof.
   unfold good_params. split; [vm_compute; repeat constructor|]. split; [vm_compute; repeat constructor|].
-  split; [vm_compute; split; discriminate|]. intros k; destruct k; vm_compute; reflexivity.
+  split; [vm_compute; discriminate|]. split; [vm_compute; discriminate|]. split; [vm_compute; reflexivity|].
+  intros k; destruct k; vm_compute; reflexivity.
 Qed.
 Print Assumptions C20_params_good.
 
 (* dyn_refines_list: for every history (any element kind, any interleaving of push / pop / get / set / remove_at / clear /
    reserve / clone / slice / struct push-get-set-pop, any values and indices) the array machine with capacity, storage
    block and checked accesses produces the outputs, the final sequence and the assert-stops of the typed-sequence machine,
-   as long as the history stays in the specification's domain (LExcl: see C20_dyn_excluded_is). *)
+   as long as the history stays in the specification's domain (LExcl: only allocation requests above the limit and
+   impossible struct sizes, see C20_dyn_excluded_iff). *)
 Theorem C20_dyn_refines_list : forall ops d, inv rt_params d ->
   match lrun rt_params (abs d) ops with
   | (outs, LFin l') => exists d', run rt_params d ops = (outs, Fin d') /\ abs d' = l' /\ inv rt_params d'
@@ -77,49 +80,61 @@ Theorem C20_dyn_get_in_range : forall d k i, inv rt_params d -> d_kind d = ek k 
 Proof. exact (fun d k i => get_in_range rt_params d k i C20_params_good). Qed.
 Print Assumptions C20_dyn_get_in_range.
 
-(* REFUTED at full strength ("after ANY series of operations the contents equal those of the abstract list") on the
-   pinned tree: two operations leave the domain by touching memory they do not own / undefined arithmetic.
-   (1) dyn_array_clone of a struct array: the clone is created with elem_size 0 / data NULL and memcpy writes
-       length*elem_size bytes into it;   (2) nl_array_slice: int64 end = start + length overflows.
-   [rt_clone_struct_fixed] / [rt_slice_clamped] are MEASURED on the current code (the translator replays exactly these
-   witnesses in a sanitized child process), so the statement follows the code: while a defect is present its witness
-   Crashes; once the repair (proposed_fixes/C20-clone-struct.diff, C20-array-slice-clamp.diff) is in, the same history
-   is inside the domain and ends as the list says.  tools/props/c20.py replays both witnesses through dyn_probe as well
-   (known findings c20:dyn:clone-struct, c20:dyn:slice-overflow). *)
-Theorem C20_dyn_refines_list_refuted :
-  (if rt_clone_struct_fixed
-   then fst (lrun rt_params (abs (dyn_new rt_params EStruct)) [PushStruct [1; 2]%N; Clone; GetStruct 0]) = [OUnit; OUnit; OCell (Blob [1; 2]%N)]
-   else snd (run rt_params (dyn_new rt_params EStruct) [PushStruct [1; 2]%N; Clone]) = Crashed) /\
-  (if rt_slice_clamped
-   then fst (lrun rt_params (abs (dyn_new rt_params EInt)) [Push SInt 1; Push SInt 2; Slice 1 9223372036854775807; Get SInt 0]) = [OUnit; OUnit; OUnit; OCell (Val 2)]
-   else snd (run rt_params (dyn_new rt_params EInt) [Push SInt 1; Push SInt 2; Slice 1 9223372036854775807]) = Crashed).
-Proof. vm_compute. split; reflexivity. Qed.
-Print Assumptions C20_dyn_refines_list_refuted.
-
-(* the domain of the specification, spelled out: the only operations [lstep] excludes *)
-Theorem C20_dyn_excluded_is : forall l o, lstep rt_params l o = LExcluded ->
+(* FULL STRENGTH since the repairs c3b7222 (dyn_array_clone of struct arrays), 9ae9f7a (nl_array_slice clamps the length
+   before adding) and aedede4 (DynArray.elem_size is a uint32_t): clone and slice are inside the specification for every
+   element kind and every argument, struct elements may have any size the field can hold.  What remains outside [lstep]'s
+   domain is not a behaviour of the code but of the allocator / of C itself:
+     Reserve n, Clone        a request above [rt_limit] = 2^20 cells (malloc's answer is not modelled)
+     PushStruct bs           a struct of 0 bytes (not a C99 object) or of >= 256^sizeof(elem_size) = 2^32 bytes
+   C20_dyn_excluded_iff is the exact characterisation; together with C20_dyn_refines_list: every history whose allocation
+   requests stay below the limit behaves as the typed sequence. *)
+Theorem C20_dyn_excluded_iff : forall l o, lstep rt_params l o = LExcluded <->
   match o with
   | Reserve n => (p_limit rt_params < n)%Z
-  | Clone => (l_kind l = EStruct /\ rt_clone_struct_fixed = false) \/ (p_limit rt_params < Z.of_nat (length (l_items l)))%Z
-  | Slice a b => rt_slice_clamped = false
-  | PushStruct bs => struct_size_ok bs = false
+  | Clone => (p_limit rt_params < Z.of_nat (length (l_items l)))%Z
+  | PushStruct bs => struct_size_ok rt_params bs = false
   | _ => False
   end.
 Proof.
-  intros l o H. destruct o; cbn [lstep] in H;
-    repeat match type of H with
-           | (if ?c then _ else _) = LExcluded => let E := fresh "E" in destruct c eqn:E
-           | match ?c with _ => _ end = LExcluded => let E := fresh "E" in destruct c eqn:E
-           end; try discriminate;
-    repeat match goal with
-           | E : (_ <? _)%Z = true |- _ => apply Z.ltb_lt in E
-           | E : _ || _ = true |- _ => apply orb_true_iff in E; destruct E as [E|E]
-           | E : _ && _ = true |- _ => apply andb_true_iff in E; let E2 := fresh "E" in destruct E as [E E2]
-           | E : ekind_eqb _ _ = true |- _ => apply ekind_eqb_eq in E
-           | E : negb _ = true |- _ => apply negb_true_iff in E
-           end; auto.
+  intros l o. split.
+  - intros H. destruct o; cbn [lstep] in H;
+      repeat match type of H with
+             | (if ?c then _ else _) = LExcluded => let E := fresh "E" in destruct c eqn:E
+             | match ?c with _ => _ end = LExcluded => let E := fresh "E" in destruct c eqn:E
+             end; try discriminate;
+      repeat match goal with
+             | E : (_ <? _)%Z = true |- _ => apply Z.ltb_lt in E
+             | E : negb _ = true |- _ => apply negb_true_iff in E
+             end; auto.
+  - intros H. destruct o; try contradiction; cbn [lstep].
+    + apply Z.ltb_lt in H. rewrite H. reflexivity.
+    + apply Z.ltb_lt in H. rewrite H. reflexivity.
+    + rewrite H. reflexivity.
 Qed.
-Print Assumptions C20_dyn_excluded_is.
+Print Assumptions C20_dyn_excluded_iff.
+
+(* in particular the emitted nl_array_slice and dyn_array_get/set/pop/remove/clear/length are total on the specification *)
+Theorem C20_dyn_slice_never_excluded : forall l a b, lstep rt_params l (Slice a b) <> LExcluded.
+Proof. intros l a b H. apply C20_dyn_excluded_iff in H. exact H. Qed.
+Print Assumptions C20_dyn_slice_never_excluded.
+
+(* regression guards.  (1) the translator replays the witnesses of the repaired findings on the current code in a sanitized
+   child process; (2) the former Crash witnesses now run to the end, in the array machine itself, with the list's answers
+   (the second one: 9 structs, i.e. a clone larger than INITIAL_CAPACITY; the last: a 300-byte struct) *)
+Theorem C20_runtime_repairs_present : rt_clone_struct_fixed = true /\ rt_slice_clamped = true /\ (255 < rt_esize_mod)%N.
+Proof. vm_compute. repeat split; reflexivity. Qed.
+Print Assumptions C20_runtime_repairs_present.
+
+Theorem C20_dyn_former_witnesses :
+  fst (run rt_params (dyn_new rt_params EStruct) [PushStruct [1; 2]%N; Clone; GetStruct 0]) = [OUnit; OUnit; OCell (Blob [1; 2]%N)] /\
+  fst (run rt_params (dyn_new rt_params EStruct) (repeat (PushStruct [10; 11; 12]%N) 9 ++ [Clone; Length; GetStruct 8]))
+    = repeat OUnit 10 ++ [OLen 9; OCell (Blob [10; 11; 12]%N)] /\
+  fst (run rt_params (dyn_new rt_params EStruct) [Clone; Length]) = [OUnit; OLen 0] /\
+  fst (run rt_params (dyn_new rt_params EInt) [Push SInt 1; Push SInt 2; Slice 1 9223372036854775807; Get SInt 0; Length])
+    = [OUnit; OUnit; OUnit; OCell (Val 2); OLen 1] /\
+  fst (run rt_params (dyn_new rt_params EStruct) [PushStruct (repeat 7%N 300); Length]) = [OUnit; OLen 1].
+Proof. vm_compute. repeat split; reflexivity. Qed.
+Print Assumptions C20_dyn_former_witnesses.
 
 (* non-vacuity: a history that grows twice, removes, slices and clones stays in the domain and ends as the list says *)
 Example C20_dyn_nonvacuous :
